@@ -350,3 +350,25 @@ def host_class_program(rng):
     L += ["var sc = Scripted.new();", "print(sc.all());", "print(sc.sup());", "print([sc.derives(%s), sc.derives(HAnimal), type(sc)]);" % base,
           "#[derive(Scripted), constructor(new)] class Deeper { fn speak(self) { return \"deeper\"; } }", "print(Deeper.new().all());", "print(Deeper.new().sup());"]
     return "\n".join(L) + "\n"
+
+
+def object_override_program(rng):
+    """classes that override what every class inherits from Object (derives), three levels deep, called and bound through
+    instances of each level; super calls in methods whose name is also a field of the receiver"""
+    r = rng
+    L = ["#[constructor(new)]", "class Base {", "    fn derives(self, c) { return [\"base says\", c == Base]; }", "    fn label(self) { return \"base\"; }", "}",
+         "#[derive(Base), constructor(new)]", "class Mid {", "    fn label(self) { return [\"mid\", super.label()]; }",
+         "    fn viasuper(self, c) { return super.derives(c); }", "}",
+         "#[derive(Mid), constructor(new)]", "class Leaf { fn other(self) { return super.label(); } }",
+         "#[derive(Leaf), constructor(new)]", "class Redeclared { fn derives(self, c) { return \"redeclared\"; } }"]
+    for cls in r.sample(["Base", "Mid", "Leaf", "Redeclared"], 3):
+        v = cls.lower()
+        L += ["var %s = %s.new();" % (v, cls), "print(%s.derives(Base));" % v, "{ var d = %s.derives; print(d(Mid)); }" % v,
+              "try { print(%s.viasuper(Base)); } catch e { print(type(e)); }" % v, "print(%s.label());" % v]
+        if r.chance(60):
+            field = r.choice(["\"a field\"", "|| \"field fn\"", "5", "%s.label" % v])
+            L += ["var bound_%s = %s.label;" % (v, v), "%s.label = %s;" % (v, field),
+                  "try { print(bound_%s()); } catch e { print(type(e)); print(e.context); }" % v,
+                  "try { print(%s.other()); } catch e { print(type(e)); print(e.context); }" % v,
+                  "try { print(%s.label()); } catch e { print(type(e)); print(e.context); }" % v]
+    return "\n".join(L) + "\n"
